@@ -359,6 +359,12 @@ impl Response {
                 conn.flush().await.expect("Failed to flush connection");
 
                 while let Some(chunk) = stream.next().await {
+                    /* lines of an event stream end with CRLF, LF or CR: a CR left in data
+                       would end the `data:` line and let the rest be read as another field */
+                    let chunk = if chunk.contains('\r') {
+                        chunk.replace("\r\n", "\n").replace('\r', "\n")
+                    } else {chunk};
+
                     let mut message = Vec::with_capacity(
                         /* capacity for a single line */
                         "data: ".len() + chunk.len() + "\n\n".len()
